@@ -147,14 +147,15 @@ pub fn run(ctx: &Ctx) {
   ctx.assume("claim covers sui starting in years 27..9997 except 237, 238, 239 (the hard-coded Jingchu reform), as the property states");
   let t = LunTable::build(ctx, 0, 9999);
   let z = build_zhong(ctx, 1, 10000);
-  let years: Vec<isize> = if ctx.quick() { years_for(ctx, 27, 9997) } else { (27..=9997).collect() };
+  // the whole space costs ~3 s, so both tiers enumerate it completely
+  let years: Vec<isize> = (27..=9997).collect();
   let years: Vec<isize> = years.into_iter().filter(|y| !excluded(*y)).collect();
   let done = par_chunks(ctx, 0, years.len(), 50, |a, b, l| {
     for i in a..b {
       check_sui(ctx, &t, &z, years[i], l);
     }
   });
-  ctx.subspace(&format!("sui: {} winter-solstice-to-winter-solstice spans ({}), every lunation of each labelled by the rule", years.len(), if ctx.quick() { "quick windows" } else { "all of 27..9997 except 237-239" }), done, years.len() as u64);
+  ctx.subspace(&format!("sui: {} winter-solstice-to-winter-solstice spans ({}), every lunation of each labelled by the rule", years.len(), "all of 27..9997 except 237-239"), done, years.len() as u64);
   // every leap month of the table must have been produced by some sui (no leap month in a 12-lunation sui is implied by the walk)
   for y in [2020isize, 2033, 1984, 7013] {
     let d0 = z.zq[(y + 1) as usize][0];
